@@ -101,7 +101,15 @@ fn check_case(c: &SeqCase, obs: &mut Obs) -> Verdict {
 }
 
 fn strat(tier: Tier) -> BoxedStrategy<SeqCase> {
-    seq_case(tier.pick(80, 300), true, 3)
+    prop_oneof![
+        8 => seq_case(tier.pick(80, 300), true, 3),
+        1 => (perm_pair(20, tier.pick(150, 400)), 0u8..3).prop_map(|((a, b), mode)| {
+            let mut c = SeqCase::full(1, a, b);
+            c.mode = mode;
+            c
+        }),
+    ]
+    .boxed()
 }
 
 fn enum_small(tier: Tier, f: &mut dyn FnMut(SeqCase) -> bool) {
@@ -134,7 +142,7 @@ impl Prop for C15 {
                     gen: enum_small,
                 },
             },
-            Stage { name: "random", kind: StageKind::Random { strategy: strat, cases: tier.pick(200_000, 3_000_000) } },
+            Stage { name: "random", kind: StageKind::Random { strategy: strat, cases: tier.pick(1_000_000, 5_000_000) } },
         ]
     }
     fn check(case: &SeqCase, obs: &mut Obs) -> Verdict {
